@@ -20,7 +20,8 @@ THEOREMS = ['Fsic.C11.' + n for n in [
     'interleaved_independent', 'interleaved_independent_ops', 'copy_resync_independent',
     'assignFrom_inplace_copies_values', 'failed_copy_is_identity', 'deepcopy_uncopyable', 'worldOK_after_copy',
     'successive_copies_disjoint', 'fresh_check_is_not_endogenous', 'copy_entry_aliasing_preserved',
-    'copy_entries_separate_linker', 'copy_succeeds', 'ranked_acyclic']]
+    'copy_entries_separate_linker', 'copy_succeeds', 'ranked_acyclic', 'siblings_disjoint_own_spans',
+    'siblings_share_callers_span']]
 RULE = ('programs over real fsic objects: a class (VectorContainer; parser-built / hand-written / default-inheriting '
         'BaseModel subclasses; BaseLinker subclasses with two nested submodels; with and without AliasMixin / '
         'TracerMixin, TRACE_VARIABLES None or a class-level list), two sibling instances over range / list spans, a '
